@@ -496,7 +496,7 @@ func TestVerifC10SNI(t *testing.T) {
 // route lookup must see the TLS stack's name however the bytes are segmented.
 func TestVerifC10Segments(t *testing.T) {
 	L := ev.Begin("C10", "c10-segments", "exploration",
-		"a subset of the corpus (smallest, typical, post-quantum ~1.5 kB, padded beyond bufio's 4096-byte buffer, padded to a full 16 kB record, assembled variants) delivered to the real tcp.SNIProxy.ServeTCP over an in-memory connection in 2 segments split at every offset class (every offset up to 16, every 7th after, the last 3) and in 3 segments at (5, 9+k); oracle: Lookup is called exactly once with the name tls.Server sees for the same bytes, and the upstream receives exactly the bytes sent. non-trivial = every (hello, split) pair")
+		"a subset of the corpus (smallest, typical, post-quantum ~1.5 kB, padded beyond bufio's 4096-byte buffer, padded to a full 16 kB record, assembled variants) delivered to the real tcp.SNIProxy.ServeTCP over an in-memory connection in 2 segments split at every offset class (every offset up to 16, every 7th after, the last 3) and in 3 segments at (5, 9+k), the bytes the client sends after the hello in a segment of their own or joined to the hello's last segment; oracle: Lookup is called exactly once with the name tls.Server sees for the same bytes, and the upstream receives exactly the bytes sent. non-trivial = every (hello, split) pair")
 	corpus := c10Corpus()
 	var pick []c10Hello
 	seenLen := map[int]bool{}
@@ -513,19 +513,22 @@ func TestVerifC10Segments(t *testing.T) {
 	}
 	L.Set("hellos", len(pick))
 	type job struct {
-		h    c10Hello
-		cuts []int
+		h      c10Hello
+		cuts   []int
+		joined bool // what the client sends after the hello rides in the same segment as the end of the hello
 	}
 	var jobs []job
 	for _, h := range pick {
 		n := len(h.raw)
+		// the hello and what follows it in one segment, and with the record header on its own
+		jobs = append(jobs, job{h, nil, true}, job{h, []int{5}, true}, job{h, []int{n - 1}, true})
 		for c := 1; c < n; c++ {
 			if c <= 16 || c%7 == 0 || c >= n-3 || !(!ev.Thorough()) {
-				jobs = append(jobs, job{h, []int{c}})
+				jobs = append(jobs, job{h, []int{c}, false})
 			}
 		}
 		for k := 1; k < n-10; k += 61 {
-			jobs = append(jobs, job{h, []int{5, 9 + k}})
+			jobs = append(jobs, job{h, []int{5, 9 + k}, false})
 		}
 	}
 	si, sn := ev.Shard()
@@ -551,12 +554,16 @@ func TestVerifC10Segments(t *testing.T) {
 					if c > len(j.h.raw) {
 						c = len(j.h.raw)
 					}
-					if c > prev {
+					if c == len(j.h.raw) && j.joined {
+						client.Write(append(append([]byte{}, j.h.raw[prev:c]...), []byte("after-hello")...))
+					} else if c > prev {
 						client.Write(j.h.raw[prev:c])
 					}
 					prev = c
 				}
-				client.Write([]byte("after-hello"))
+				if !j.joined {
+					client.Write([]byte("after-hello"))
+				}
 				client.CloseWrite()
 			})
 			x.Go("upstream", func() {
@@ -578,8 +585,8 @@ func TestVerifC10Segments(t *testing.T) {
 		})
 		_ = st
 		L.Case()
-		L.NontrivialKey(fmt.Sprint(j.h.desc, j.cuts))
-		d := map[string]interface{}{"hello": j.h.desc, "len": len(j.h.raw), "segment_boundaries": j.cuts, "lookups": looked, "tls_stack_name": want}
+		L.NontrivialKey(fmt.Sprint(j.h.desc, j.cuts, j.joined))
+		d := map[string]interface{}{"hello": j.h.desc, "len": len(j.h.raw), "segment_boundaries": j.cuts, "bytes_after_the_hello_in_its_last_segment": j.joined, "lookups": looked, "tls_stack_name": want}
 		L.Sample(d)
 		L.Outcome(fmt.Sprint(looked))
 		if len(looked) != 1 || looked[0] != want {
